@@ -317,6 +317,24 @@ fn segment_pool(r: &mut Rng, t: &DTy) -> Vec<Vec<u8>> {
 }
 
 pub fn gen_acc(r: &mut Rng, thorough: bool, overflow: bool, out: &mut Vec<String>) {
+    // an UNTERMINATED tail that fills the buffer exactly (N zero-free bytes and no sentinel yet): it fits, so it is
+    // buffered without any result - delivered whole, in every chunking, after a frame, and byte by byte
+    for n in [1usize, 2, 3, 4, 5, 8] {
+        let t = DTy::U(8);
+        for (pre, tail_len) in [(vec![], n), (vec![0x02u8, 0x07, 0x00], n), (vec![], n - 1), (vec![0x00], n)] {
+            let mut s: Vec<u8> = pre.clone();
+            s.extend((0..tail_len).map(|i| 1 + ((i * 37 + n) % 255) as u8));
+            if s.is_empty() || s.len() > 12 {
+                continue;
+            }
+            if pre.len() + 1 > n && !overflow && !pre.is_empty() && pre != vec![0x00] {
+                continue; // the leading frame would not fit this capacity: C09's territory
+            }
+            for mask in 0..(1u64 << (s.len() - 1)) {
+                out.push(fmt_acc(n, &t, &chunking(&s, mask)));
+            }
+        }
+    }
     // (incl. types whose wire form is zero bytes: an empty frame is then a VALID message)
     let tys = [DTy::U(8), DTy::Tuple(vec![DTy::U(8), DTy::U(16)]), DTy::Bytes, DTy::Str, DTy::Struct(vec![DTy::U(32), DTy::U(8)]), DTy::Option(Box::new(DTy::I(16))), DTy::Unit, DTy::Tuple(vec![]), DTy::UStruct];
     let maxlen = if thorough { 13 } else { 8 };
